@@ -196,16 +196,18 @@ func ExpectedDifficulty(t uint64, parent *types.Header) *big.Int {
 	return d
 }
 
-// GasLimitOK is EIP-1559's bound for a London child of a London parent.
-func GasLimitOK(parentLimit, limit uint64) bool {
+func gasLimitWithinBound(parentLimit, limit uint64) bool {
 	bound := parentLimit / gasLimitBoundDivisor
-	var diff uint64
 	if limit > parentLimit {
-		diff = limit - parentLimit
-	} else {
-		diff = parentLimit - limit
+		return limit-parentLimit < bound
 	}
-	return diff < bound && limit >= minGasLimit
+	return parentLimit-limit < bound
+}
+
+// GasLimitOK is EIP-1559's rule for a London child of a London parent: the
+// limit moves by strictly less than parent/1024 and is at least 5000.
+func GasLimitOK(parentLimit, limit uint64) bool {
+	return gasLimitWithinBound(parentLimit, limit) && limit >= minGasLimit
 }
 
 func decimal(s string) (*big.Int, bool) {
@@ -275,6 +277,10 @@ func (m *Model) Judge(s *Submission, blockTime time.Time) (Verdict, string) {
 	}
 	// --- EIP-1559 gas limit and base fee
 	if !GasLimitOK(parent.GasLimit, h.GasLimit) {
+		if h.GasLimit < minGasLimit && gasLimitWithinBound(parent.GasLimit, h.GasLimit) {
+			// only the "at least 5000" rule is broken
+			return Reject, "gas-limit-minimum"
+		}
 		return Reject, "gas-limit"
 	}
 	if h.BaseFee.Cmp(ExpectedBaseFee(parent)) != 0 {
